@@ -98,6 +98,7 @@ class CsrDevice:
         self.jobs = 0
         self.in_launch = False
         self.needs_clear = False
+        self.awaiting = False
         self.launch_writes: list = []
 
     def read_reg(self, addr):
@@ -171,6 +172,16 @@ class CsrMachine(Machine):
             raise Violation("undeclared-register", f"csrw to address {addr:#x} that no accelerator declares (value {val!r})")
 
     def launch_write(self, d: CsrDevice, addr, val):
+        if d.d.style == "write-block" and norm_val(val, 32) == 0:
+            # style 4: a write of 0 to a launch register starts nothing and blocks the core while the device is busy
+            self.close_launch()
+            if d.busy_until > self.now:
+                self.probe("write-blocked-while-busy")
+                self.now = d.busy_until
+            if d.awaiting:
+                d.awaiting = False
+                self.hist.append(("await", d.d.name))
+            return
         if not d.in_launch:
             self.close_launch()
             if d.busy_until > self.now:
@@ -184,6 +195,7 @@ class CsrMachine(Machine):
                 lat = 1 + hkey(self.seed, "lat", d.d.name, d.jobs) % lat
                 self.fault("latency")
             d.busy_until = self.now + lat
+            d.awaiting = True
             if d.d.style == "poll-clear":
                 d.needs_clear = True
             self.hist.append(("launch", d.d.name, dict(d.regs)))
